@@ -394,6 +394,25 @@ impl Trees {
         }
         Trees { atoms, shapes, offsets }
     }
+    /// quick tier only: the shapes with <= 3 internal nodes and exactly 5 leaves over a reduced atom set
+    /// (two nested ?: with a !, || or && inside: one leaf more than the main quick family reaches)
+    fn five_leaves() -> Trees {
+        let atoms = vec![AtomK::VarTrue, AtomK::VarFalse, AtomK::Var1, AtomK::Var0, AtomK::CallE, AtomK::Lit1];
+        let mut memo = Vec::new();
+        let mut shapes = Vec::new();
+        for n in 0..=3 {
+            for s in shapes_with(n, 5, &mut memo) {
+                if s.leaves() == 5 {
+                    shapes.push(s);
+                }
+            }
+        }
+        let mut offsets = vec![0u64];
+        for s in &shapes {
+            offsets.push(offsets.last().unwrap() + (atoms.len() as u64).pow(5));
+        }
+        Trees { atoms, shapes, offsets }
+    }
     fn size(&self) -> u64 {
         *self.offsets.last().unwrap()
     }
@@ -445,7 +464,8 @@ impl Trees {
         let got_log = take_log();
         acc.eval();
         acc.class(&got.class());
-        acc.nontrivial(&idx);
+        let fam = acc.family.clone();
+        acc.nontrivial(&(fam, idx));
 
         let verdict: Option<&'static str> = match (&exp, &got) {
             (_, Outcome::Panic { .. }) => Some("panic"),
@@ -839,7 +859,9 @@ pub fn replay_families(t: Tier) -> Vec<Family<'static>> {
     let tr: &'static Trees = Box::leak(Box::new(Trees::new(t)));
     let m: &'static Matches = Box::leak(Box::new(Matches::new(t)));
     let th: &'static Truth = Box::leak(Box::new(Truth::new()));
+    let t5: &'static Trees = Box::leak(Box::new(Trees::five_leaves()));
     vec![
+        Family::new("trees-5-leaves", t5.size(), move |i, a| t5.run(i, a)),
         Family::new("trees", tr.size(), move |i, a| tr.run(i, a)),
         Family::new("match", m.size(), move |i, a| m.run(i, a)),
         Family::new("truthiness", th.size(), move |i, a| th.run(i, a)),
@@ -851,7 +873,7 @@ pub fn run(t: Tier) -> i32 {
     let tr = Trees::new(t);
     let (mn, ml) = t.pick((3, 4), (4, 5));
     rep.rule = format!(
-        "trees: every fully parenthesised tree over {{||, &&, ?:, !}} with <= {} internal nodes and <= {} leaves (thorough: 4-node trees up to 4 leaves; {} shapes),
+        "trees: every fully parenthesised tree over {{||, &&, ?:, !}} with <= {} internal nodes and <= {} leaves (thorough: 4-node trees up to 4 leaves; {} shapes; quick adds every shape with <= 3 nodes and exactly 5 leaves over 6 atoms),
  every leaf from {} atoms (literal and bound true/false, literal and bound truthy/falsy ints, a foldable failure 1/0, a run-time failure z/0, an unbound name, call-recording functions returning true/false/an error), executed through the public API; the outcome and the exact sequence of recorded calls must equal a reference lazy evaluator. match: every match with 0..{} cases over 7 patterns x 5 arms x 11 scrutinees, literal and bound; expected = arm of the first matching case, null if none; cases whose pattern comparison is not defined by the property are totality-only. truthiness: {} values of every type x {} contexts x literal/bound against one truthiness table. Non-trivial = the property fixes the outcome; distinct by index",
         mn,
         ml,
@@ -863,6 +885,12 @@ pub fn run(t: Tier) -> i32 {
     );
     rep.set("tree_shapes", json!(tr.shapes.len()));
     rep.run_family(Family::new("trees", tr.size(), |i, a| tr.run(i, a)));
+    if t == Tier::Quick {
+        // thorough covers these shapes with the full atom set
+        let t5 = Trees::five_leaves();
+        rep.set("tree_shapes_with_5_leaves", json!(t5.shapes.len()));
+        rep.run_family(Family::new("trees-5-leaves", t5.size(), |i, a| t5.run(i, a)));
+    }
     let m = Matches::new(t);
     rep.run_family(Family::new("match", m.size(), |i, a| m.run(i, a)));
     let th = Truth::new();
